@@ -1,0 +1,9 @@
+//go:build !verif
+
+package json
+
+// Verification hooks (see verif_hook_on.go). Without the `verif` build tag they are empty and inlined away.
+
+func verifWorkerDelay(line int) {}
+
+func verifConsumerEvent(kind int, line int) {}
